@@ -86,7 +86,7 @@ package stateless
 //@   modifies heap(optracker.OperationTracker), heap(optracker.Operation), heap(api.Pin), heap(api.PinInfo), heap(api.IPFSPinStatus), rpcN, rpcLastSvc, rpcLastMethod
 
 // ---- C06: the per-CID status ----
-//@ spec func remoteFor(p api.Pin, pid peer.ID) bool = !(p.ReplicationFactorMin == -1 && p.ReplicationFactorMax == -1) && !in(pid, elems(p.Allocations))
+//@ spec opaque func remoteFor(p api.Pin, pid peer.ID) bool = !(p.ReplicationFactorMin == -1 && p.ReplicationFactorMax == -1) && !in(pid, elems(p.Allocations))
 //@ spec func ipfsHolds(ips api.IPFSPinStatus) bool = ips == api.IPFSPinStatusDirect || ips == api.IPFSPinStatusRecursive
 //@ spec func ipfsLacks(ips api.IPFSPinStatus) bool = ips == api.IPFSPinStatusIndirect || ips == api.IPFSPinStatusUnpinned
 
@@ -103,6 +103,73 @@ package stateless
 //@   ensures [same-as-listing-when-missing] !haskey(spt.optracker.operations, c) && haskey(pinset, c) && pinset[c].Type != api.MetaType && !remoteFor(pinset[c], spt.peerID) && rpcN == old(rpcN) + 1 && ipfsLacks(ips) && res.Status != api.TrackerStatusClusterError ==> res.Status == api.TrackerStatusUnexpectedlyUnpinned
 //@   ensures [table-untouched] spt.optracker.operations == old(spt.optracker.operations)
 //@   modifies heap(api.PinInfo), heap(api.IPFSPinStatus), rpcN, rpcLastSvc, rpcLastMethod
+
+// ---- C06: "a filtered listing is exactly the unfiltered listing restricted to the filter" ----
+// ipfsHeld: the set of CIDs the local IPFS daemon holds recursively (what "pin ls" answers on a quiescent peer)
+//@ ghost var ipfsHeld map[cid.Cid]bool
+//@ spec func matches(s api.TrackerStatus, f api.TrackerStatus) bool = f == 0 || s == 0 || (s & f) > 0
+// the status the facts dictate for a CID of the pinset that has no operation in flight
+//@ spec func factStatus(p api.Pin, self peer.ID, held bool) api.TrackerStatus = ite(p.Type == api.MetaType, api.TrackerStatusSharded, ite(remoteFor(p, self), api.TrackerStatusRemote, ite(held, api.TrackerStatusPinned, api.TrackerStatusUnexpectedlyUnpinned)))
+
+// assumed (not verified): the answer of the IPFS connector, as a map with one fresh "pinned" entry per held CID
+//@ func (spt *Tracker) ipfsStatusAll
+//@   opts trusted
+//@   ensures err != nil ==> res == nil
+//@   ensures err == nil ==> !isnil(res) && forall c cid.Cid :: (haskey(res, c) <==> ipfsHeld[c]) && (haskey(res, c) ==> res[c] != nil && fresh(res[c]) && res[c].Status == api.TrackerStatusPinned && res[c].Cid == c)
+//@   modifies nothing
+
+// bit-level facts about filters, proved over 64-bit vectors and used by localStatus
+//@ lemma filter_and_commutes: forall a int, b int :: (a & b) == (b & a)
+//@   property C06
+//@   opts bv
+//@ lemma filter_shortcut_ipfs: forall s int, f int :: (s == api.TrackerStatusPinned || s == api.TrackerStatusUnexpectedlyUnpinned) && matches(s, f) ==> matches(f, api.TrackerStatusPinned | api.TrackerStatusUnexpectedlyUnpinned)
+//@   property C06
+//@   opts bv
+//@ lemma filter_shortcut_list: forall s int, f int :: (s == api.TrackerStatusPinned || s == api.TrackerStatusUnexpectedlyUnpinned || s == api.TrackerStatusSharded || s == api.TrackerStatusRemote) && matches(s, f) ==> matches(f, api.TrackerStatusPinned | api.TrackerStatusUnexpectedlyUnpinned | api.TrackerStatusSharded | api.TrackerStatusRemote)
+//@   property C06
+//@   opts bv
+
+// whatever the filter: an entry that matches the filter carries the status the facts dictate, and every CID whose
+// dictated status matches the filter is listed (entries not matching the filter may be missing or stale: the caller
+// drops them)
+//@ func (spt *Tracker) localStatus
+//@   property C06
+//@   uses filter_and_commutes filter_shortcut_ipfs filter_shortcut_list
+//@   requires incExtra
+//@   ensures [failed-nil] err != nil ==> isnil(res)
+//@   ensures [matching-entries-are-right] err == nil ==> forall c cid.Cid :: haskey(res, c) ==> res[c] != nil && res[c].Cid == c && haskey(pinset, c) && (matches(res[c].Status, filter) ==> res[c].Status == factStatus(pinset[c], spt.peerID, ipfsHeld[c]))
+//@   ensures [lemma-listing-needed] err == nil ==> forall c cid.Cid :: haskey(pinset, c) && matches(factStatus(pinset[c], spt.peerID, ipfsHeld[c]), filter) ==> matches(filter, api.TrackerStatusPinned | api.TrackerStatusUnexpectedlyUnpinned | api.TrackerStatusSharded | api.TrackerStatusRemote)
+//@   ensures [lemma-listing-complete] err == nil && matches(filter, api.TrackerStatusPinned | api.TrackerStatusUnexpectedlyUnpinned | api.TrackerStatusSharded | api.TrackerStatusRemote) ==> forall c cid.Cid :: haskey(pinset, c) ==> exists i int :: 0 <= i && i < len(statePins) && statePins[i].Cid == c
+//@   ensures [matching-cids-are-listed] err == nil ==> forall c cid.Cid :: haskey(pinset, c) && matches(factStatus(pinset[c], spt.peerID, ipfsHeld[c]), filter) ==> haskey(res, c) && res[c].Status == factStatus(pinset[c], spt.peerID, ipfsHeld[c])
+//@   loop 1 (range statePins)
+//@     invariant forall c cid.Cid :: haskey(localpis, c) ==> localpis[c] != nil && localpis[c].Status == api.TrackerStatusPinned && localpis[c].Cid == c
+//@     invariant forall c cid.Cid :: haskey(pininfos, c) ==> pininfos[c] != nil && pininfos[c].Cid == c
+//@     invariant forall c cid.Cid :: haskey(pininfos, c) ==> haskey(pinset, c)
+//@     invariant forall c cid.Cid :: haskey(pininfos, c) && matches(pininfos[c].Status, filter) ==> pininfos[c].Status == factStatus(pinset[c], spt.peerID, ipfsHeld[c])
+//@     invariant forall j int :: 0 <= j && j < idx1 ==> (matches(factStatus(pinset[statePins[j].Cid], spt.peerID, ipfsHeld[statePins[j].Cid]), filter) ==> haskey(pininfos, statePins[j].Cid) && pininfos[statePins[j].Cid].Status == factStatus(pinset[statePins[j].Cid], spt.peerID, ipfsHeld[statePins[j].Cid]))
+//@   modifies heap(api.PinInfo)
+
+// the listing: operations in flight (or failed) report their own status, every other CID the status the facts
+// dictate, each CID at most once, and exactly those whose status the filter admits
+//@ func (spt *Tracker) StatusAll
+//@   property C06
+//@   requires tableInv(spt.optracker)
+//@   ensures [only-what-the-filter-admits] forall i int :: 0 <= i && i < len(res) ==> res[i] != nil && matches(res[i].Status, filter)
+//@   ensures [operation-status-wins] forall i int :: 0 <= i && i < len(res) && haskey(spt.optracker.operations, res[i].Cid) ==> res[i].Status == opStatus(spt.optracker.operations[res[i].Cid].opType, spt.optracker.operations[res[i].Cid].phase)
+//@   ensures [otherwise-the-facts] forall i int :: 0 <= i && i < len(res) && !haskey(spt.optracker.operations, res[i].Cid) ==> haskey(pinset, res[i].Cid) && res[i].Status == factStatus(pinset[res[i].Cid], spt.peerID, ipfsHeld[res[i].Cid])
+//@   ensures [at-most-once] forall i int, j int :: 0 <= i && i < j && j < len(res) ==> res[i].Cid != res[j].Cid
+//@   ensures [every-admitted-operation-listed] err == nil ==> forall c cid.Cid :: haskey(spt.optracker.operations, c) && matches(opStatus(spt.optracker.operations[c].opType, spt.optracker.operations[c].phase), filter) ==> exists i int :: 0 <= i && i < len(res) && res[i].Cid == c
+//@   ensures [every-admitted-cid-listed] err == nil ==> forall c cid.Cid :: haskey(pinset, c) && !haskey(spt.optracker.operations, c) && matches(factStatus(pinset[c], spt.peerID, ipfsHeld[c]), filter) ==> exists i int :: 0 <= i && i < len(res) && res[i].Cid == c
+//@   loop 1 (range spt.optracker.GetAll(ctx))
+//@     invariant forall c cid.Cid :: haskey(pininfos, c) ==> pininfos[c] != nil && pininfos[c].Cid == c
+//@     invariant forall j int :: 0 <= j && j < idx1 ==> haskey(pininfos, rng1[j].Cid) && pininfos[rng1[j].Cid].Status == opStatus(spt.optracker.operations[rng1[j].Cid].opType, spt.optracker.operations[rng1[j].Cid].phase)
+//@     invariant forall c cid.Cid :: haskey(pininfos, c) && !haskey(spt.optracker.operations, c) ==> haskey(pinset, c) && (matches(pininfos[c].Status, filter) ==> pininfos[c].Status == factStatus(pinset[c], spt.peerID, ipfsHeld[c]))
+//@     invariant forall c cid.Cid :: haskey(pinset, c) && matches(factStatus(pinset[c], spt.peerID, ipfsHeld[c]), filter) ==> haskey(pininfos, c) && (!haskey(spt.optracker.operations, c) ==> pininfos[c].Status == factStatus(pinset[c], spt.peerID, ipfsHeld[c]))
+//@   loop 2 (range pininfos)
+//@     invariant forall i int :: 0 <= i && i < len(pis) ==> pis[i] != nil && in(pis[i].Cid, seen2) && pininfos[pis[i].Cid] == pis[i] && matches(pis[i].Status, filter)
+//@     invariant forall c cid.Cid :: in(c, seen2) && matches(pininfos[c].Status, filter) ==> exists i int :: 0 <= i && i < len(pis) && pis[i] == pininfos[c]
+//@     invariant forall i int, j int :: 0 <= i && i < j && j < len(pis) ==> pis[i].Cid != pis[j].Cid
+//@   modifies heap(api.PinInfo)
 
 // ---- C15: the stateless tracker's configuration section ----
 //@ spec func validCfg(cfg *Config) bool = cfg.MaxPinQueueSize > 0 && cfg.ConcurrentPins > 0
